@@ -4,7 +4,7 @@ Monitors: M1 (API-boundary recorder + reference evaluation of every active hard
 statement on the values read after the call) and M2 (solver-formula monitor at
 the guarded hook: pointwise equivalence of the library's lowered formula with
 the exhaustively enumerated reference solution set)."""
-from .. import common, gen, solvercase as SC, oracle as O, ref as R
+from .. import common, gen, judge as J, ref as R
 from ..libstate import reset_lib_state
 
 LEVEL = "exploration"
@@ -43,66 +43,10 @@ def gen_case(rng, tier, idx):
 
 
 def exec_case(spec):
-    cnt = common.Counters()
-    viol = []
-    nontrivial = False
-    try:
-        sess, evs = SC.run(spec)
-    except R.Corner as c:
-        reset_lib_state()
-        return {"status": common.INCONC, "kind": "corner-at-build", "msg": str(c)}
-    for ev in evs:
-        if not SC.is_call(ev):
-            continue
-        cnt.inc("calls")
-        call = ev.get("call")
-        if call is None:
-            cnt.inc("corner_calls")
-            continue
-        try:
-            sols = call.enumerate(limit=spec.get("max_points", 1024)) if call.domain_size() <= spec.get("max_points", 1024) else None
-        except R.Corner:
-            cnt.inc("corner_calls")
-            continue
-        if sols is not None and 0 < len(sols) < call.domain_size():
-            nontrivial = True
-        if ev["outcome"] == "ok":
-            cnt.inc("calls_ok")
-            try:
-                bad_t = O.check_type(call, ev["post"], sess.prog)
-                bad_v = O.check_values(call, ev["post"])
-            except R.Corner:
-                cnt.inc("corner_calls")
-                continue
-            for p, v, why in bad_t:
-                viol.append(("value-outside-type", "%s = %r %s" % (".".join(map(str, p)), v, why)))
-            for org, s in bad_v:
-                viol.append(("value-violates-constraint", "after %s: %s violated in %s; values %s" % (
-                    SC.src_op(ev["op"]).split("\n")[0], s, org, O.post_env(call, ev["post"]))))
-        else:
-            cnt.inc("calls_raised")
-        # M2 whenever the hook saw the call, whatever its outcome
-        if sols is not None and ev.get("records"):
-            pw = O.pointwise(sess, "o0", ev, max_points=spec.get("max_points", 1024), sols=sols)
-            cnt.inc("hook_batches", pw["batches"])
-            cnt.inc("points_compared", pw["points"])
-            cnt.inc("sat_calls", pw["sat_calls"])
-            if pw["status"] == "mismatch":
-                viol.append(("formula-mismatch", "after %s: %d points differ, e.g. %s" % (
-                    SC.src_op(ev["op"]).split("\n")[0], pw["n_mismatch"], pw["mismatches"][:3])))
-            elif pw["status"] != "ok":
-                cnt.inc("m2_" + pw["status"].split(":")[0])
-            else:
-                cnt.inc("formulas_equivalent")
-    SC.release(evs)
-    res = {"counters": dict(cnt), "nontrivial": nontrivial, "source": SC.source_of(spec)}
-    if viol:
-        res.update(status=common.VIOL, kind=viol[0][0], msg=" || ".join(v[1] for v in viol[:3]))
-        from ..findings import classify
-        res["finding"] = classify("C01", spec, viol, evs)
-    else:
-        res["status"] = common.HELD if cnt.get("calls_ok") else common.NOOBS
-    return res
+    res = J.judge(spec, J.VALUE_KINDS)
+    if res.get("status") == common.INCONC:
+        return res
+    return J.finish(res, "C01", spec, observed_key="calls_ok")
 
 
 def min_observation(tot, status_n, tier):
